@@ -129,19 +129,38 @@ func r15b(c *RuleCtx) {
 		return
 	}
 	file := extractOf(acq, 0)
+	r15bIn(c, props, fn, file, c.pos(acq), 0)
+}
+
+// r15bIn: in fn, `file` (the output file) and the buffered writer around it are
+// used only by the counting writer's constructor, Flush, Sync, Close and
+// cleanup; the size reported on success is the counting writer's final count.
+// When fn hands the open file to a delegate (a package function with an
+// *os.File parameter), the same is required of the delegate, and fn must
+// report the delegate's size.
+func r15bIn(c *RuleCtx, props []string, fn *ssa.Function, file ssa.Value, acqPos string, depth int) {
+	name := fn.Name()
 	// every use of the file / of the bufio.Writer around it
 	allowedFile := map[string]bool{"(*os.File).Close": true, "(*os.File).Sync": true, "bufio.NewWriterSize": true, "bufio.NewWriter": true}
 	allowedBuf := map[string]bool{"(*bufio.Writer).Flush": true}
 	var bufw ssa.Value
 	var counter *ssa.Call
 	var bad []string
+	var delegate *ssa.Call
+	var delegateParam ssa.Value
 	visitFn := func(f *ssa.Function) {
 		for _, cs := range callSites(f) {
 			callee := staticCallee(cs)
-			for _, a := range cs.Common().Args {
+			for ai, a := range cs.Common().Args {
 				r := root(a)
 				if r == root(file) || sameValue(a, file) {
 					nm := calleeName(cs)
+					if callee != nil && c.p.InZap(callee) && callee.Parent() == nil && len(callee.Blocks) > 0 && ai < len(callee.Params) && isNamed(callee.Params[ai].Type(), "os", "File") && depth < 2 {
+						if call, ok := cs.(*ssa.Call); ok && delegate == nil {
+							delegate, delegateParam = call, callee.Params[ai]
+							continue
+						}
+					}
 					if !allowedFile[nm] {
 						bad = append(bad, "the output file is handed to "+nm+" ("+c.pos(cs)+"): bytes written there bypass the counting writer")
 					}
@@ -150,7 +169,6 @@ func r15b(c *RuleCtx) {
 					}
 				}
 			}
-			_ = callee
 		}
 	}
 	visitFn(fn)
@@ -158,6 +176,37 @@ func r15b(c *RuleCtx) {
 		if f2.Parent() == fn {
 			visitFn(f2)
 		}
+	}
+	if delegate != nil && bufw == nil {
+		// fn only acquires (and cleans up); the delegate writes
+		c.add2(len(bad) == 0, props, name+"/all-bytes-counted", acqPos, "in "+name+" the output file is used only by the delegate "+delegate.Call.StaticCallee().Name()+", Sync, Close and cleanup",
+			strings.Join(bad, "; "))
+		r15bIn(c, props, delegate.Call.StaticCallee(), delegateParam, c.pos(delegate), depth+1)
+		// the size fn reports on success is the size the delegate reports
+		dres := delegate.Call.StaticCallee().Signature.Results()
+		sizeIdx := -1
+		for i := 0; i < dres.Len(); i++ {
+			if bt, ok := dres.At(i).Type().Underlying().(*types.Basic); ok && bt.Kind() == types.Uint64 {
+				sizeIdx = i
+			}
+		}
+		for _, ret := range returnsOf(fn) {
+			_, ns := errorOfReturn(ret)
+			if ns == nonNil {
+				continue
+			}
+			okc := false
+			if len(ret.Results) >= 2 && sizeIdx >= 0 {
+				if ex, ok := returnedValue(ret, 1).(*ssa.Extract); ok && ex.Tuple == ssa.Value(delegate) && ex.Index == sizeIdx {
+					okc = true
+				}
+			}
+			c.add2(okc, props, name+"/size-is-final-count", c.pos(ret), "the size reported by a successful merge is the size its delegate reports (the counting writer's count after the footer was written)", "the size result is not the delegate's")
+		}
+		return
+	}
+	if delegate != nil {
+		bad = append(bad, "the output file is handed to "+calleeName(delegate)+" ("+c.pos(delegate)+") although it is also written here")
 	}
 	if bufw != nil {
 		for _, cs := range callSites(fn) {
@@ -176,7 +225,7 @@ func r15b(c *RuleCtx) {
 			}
 		}
 	}
-	c.add2(len(bad) == 0 && counter != nil, props, "mergeSegmentBases/all-bytes-counted", c.pos(acq), "in mergeSegmentBases the file and its buffered writer are used only by the counting writer's constructor, Flush, Sync, Close and the cleanup closure",
+	c.add2(len(bad) == 0 && counter != nil, props, name+"/all-bytes-counted", acqPos, "in "+name+" the file and its buffered writer are used only by the counting writer's constructor, Flush, Sync, Close and the cleanup closure",
 		strings.Join(bad, "; ")+fmt.Sprintf(" (counting writer found: %v)", counter != nil))
 	if counter == nil {
 		return
@@ -210,7 +259,7 @@ func r15b(c *RuleCtx) {
 				}
 			}
 		}
-		c.add2(okc, props, "mergeSegmentBases/size-is-final-count", c.pos(ret), "the size reported by a successful merge is the counting writer's count after the footer was written (= length of the file)", why)
+		c.add2(okc, props, name+"/size-is-final-count", c.pos(ret), "the size reported by a successful merge is the counting writer's count after the footer was written (= length of the file)", why)
 	}
 }
 
@@ -269,7 +318,7 @@ func r15c(c *RuleCtx) {
 						e.callsLoader = true
 						return
 					}
-					if strings.HasPrefix(callee.Name(), "loadDv") || strings.HasPrefix(callee.Name(), "getSectionDv") {
+					if strings.HasPrefix(callee.Name(), "loadDv") || strings.HasPrefix(callee.Name(), "getSectionDv") || isNewHelper(c.p, callee) {
 						visit(callee, depth+1)
 					}
 				}
@@ -345,19 +394,14 @@ func ruleR17() *Rule {
 						}
 						return nil
 					})
-					pa.edgeTr = func(pred *ssa.BasicBlock, succIdx int, ev uint64) uint64 {
-						iff, ok := pred.Instrs[len(pred.Instrs)-1].(*ssa.If)
-						if !ok {
-							return ev
-						}
-						cond := iff.Cond
+					condTr := func(cond ssa.Value, outcome bool, ev uint64) uint64 {
 						if isBoolParamNamed(cond, "fieldsSame") {
-							if succIdx == 0 {
+							if outcome {
 								return ev | evFS
 							}
 							return ev &^ evFS
 						}
-						if bo, ok := cond.(*ssa.BinOp); ok && bo.Op == token.EQL && succIdx == 0 {
+						if bo, ok := cond.(*ssa.BinOp); ok && bo.Op == token.EQL && outcome {
 							if isNilConst(bo.Y) && isDropOfSeg(bo.X) {
 								return ev | evDE
 							}
@@ -369,12 +413,20 @@ func ruleR17() *Rule {
 								}
 							}
 						}
-						if call, ok := cond.(*ssa.Call); ok && succIdx == 0 {
+						if call, ok := cond.(*ssa.Call); ok && outcome {
 							if f := call.Call.StaticCallee(); f != nil && f.Name() == "IsEmpty" && isDropOfSeg(call.Call.Args[0]) {
 								return ev | evDE
 							}
 						}
 						return ev
+					}
+					pa.condTr = condTr
+					pa.edgeTr = func(pred *ssa.BasicBlock, succIdx int, ev uint64) uint64 {
+						iff, ok := pred.Instrs[len(pred.Instrs)-1].(*ssa.If)
+						if !ok {
+							return ev
+						}
+						return condTr(iff.Cond, succIdx == 0, ev)
 					}
 					pa.run(0)
 					fs, de := true, true
